@@ -177,6 +177,11 @@ Qed.
 Lemma get_put h sid s x : get_sess (put_sess h sid s) x = if N.eqb x sid then Some s else get_sess h x.
 Proof. unfold get_sess, put_sess. hsimpl. apply aget_aset. Qed.
 
+Lemma some_inj {A} (a b : A) : Some a = Some b -> a = b.
+Proof. intros H. now inversion H. Qed.
+Lemma get_put_eq h sid s : get_sess (put_sess h sid s) sid = Some s.
+Proof. now rewrite get_put, N.eqb_refl. Qed.
+
 Definition mcore (s : session) := (s.(s_kind), s.(s_perms), s.(s_pubs), s.(s_subs), s.(s_pubmedia)).
 Arguments mcore : simpl never.
 Lemma mcore_eq s s' : mcore s' = mcore s ->
@@ -1556,4 +1561,75 @@ Theorem request_needs_same_call h c sid s n stream media :
   do_media h c sid s (RSession (IdPub n)) 1 stream media = (h, [ToConn c (SError E_not_allowed)]).
 Proof.
   intros Hne Hsc. unfold do_media. cbn [N.eqb]. destruct (N.eqb_spec n sid); [contradiction|]. now rewrite Hsc.
+Qed.
+
+(* ------------------------------------------------------------------ a completed creation is owned or closed *)
+Lemma deliver_to_session_keeps h sid m :
+  h_mcuopen (fst (deliver_to_session h sid m)) = h_mcuopen h /\
+  forall y, option_map mcore (get_sess (fst (deliver_to_session h sid m)) y) = option_map mcore (get_sess h y).
+Proof.
+  unfold deliver_to_session. destruct (get_sess h sid) as [s|] eqn:Hs; [|split; reflexivity].
+  match goal with |- context [let '(m', s1) := ?X in _] => destruct X as [m' s1] eqn:HX end.
+  assert (Hc : mcore s1 = mcore s).
+  { destruct m; try (injection HX as <- <-; reflexivity).
+    - destruct (filter_seen (s_seen s) l) as [keep seen']. injection HX as <- <-. reflexivity. }
+  assert (G : forall s2, mcore s2 = mcore s ->
+            h_mcuopen (put_sess h sid s2) = h_mcuopen h /\
+            forall y, option_map mcore (get_sess (put_sess h sid s2) y) = option_map mcore (get_sess h y)).
+  { intros s2 H2. split; [reflexivity|]. intros y. rewrite get_put. destruct (N.eqb_spec y sid) as [->|]; [|reflexivity].
+    rewrite Hs. cbn. now rewrite H2. }
+  destruct m' as [mm|]; cbn [fst]; [destruct (s_conn s1); cbn [fst]|]; apply G; auto.
+Qed.
+Lemma send_session_keeps h x m : never_closing m = true ->
+  h_mcuopen (fst (send_session h x m)) = h_mcuopen h /\
+  forall y, option_map mcore (get_sess (fst (send_session h x m)) y) = option_map mcore (get_sess h y).
+Proof.
+  intros Hn. unfold send_session.
+  match goal with |- context [deliver_to_session h ?t m] => set (target := t) end.
+  pose proof (deliver_to_session_keeps h target m) as K.
+  destruct (deliver_to_session h target m) as [h1 outs] eqn:Hd. cbn [fst] in K.
+  destruct outs as [|[c mm| | |] [|o2 outs2]]; cbn [fst]; try exact K.
+  rewrite (is_closing_never h1 c mm); [exact K|]. eapply deliver_out_kind; eauto.
+Qed.
+
+(* what the media server is told when a creation completes: it failed, or the object was created
+   and closed again at once, or it was created, is open, and is in its owner's tables *)
+Theorem completion_owned_or_closed h tok p ok :
+  let '(h', outs) := finish_create h tok p ok in
+  (exists o1, outs = ToMcu (MFailed tok) :: o1) \/
+  (exists o1, outs = ToMcu (MCreated tok) :: ToMcu (MClose tok) :: o1) \/
+  (exists o1, outs = ToMcu (MCreated tok) :: o1 /\ In tok (h_mcuopen h') /\
+     exists s', get_sess h' (mp_owner p) = Some s' /\ In tok (map snd s'.(s_pubs) ++ map snd s'.(s_subs))).
+Proof.
+  unfold finish_create. destruct ok; cbn [negb].
+  2:{ destruct (send_session h (mp_errto p) (SError E_client_not_found)) as [h1 o1]. left. eauto. }
+  destruct (get_sess h (mp_owner p)) as [s|] eqn:Hs; [|left; eauto].
+  destruct (negb (N.eqb (s_rel s) (mp_rel p))).
+  { destruct (send_session h (mp_errto p) (SError E_client_not_found)) as [h1 o1]. right. left. eauto. }
+  destruct (N.eqb (mp_kind p) 0 && negb (offer_allowed (s_perms s) (mp_stream p) (N.land (mp_media p) 3))).
+  { destruct (send_session h (mp_errto p) (SError E_not_allowed)) as [h1 o1]. right. left. eauto. }
+  assert (Own3 : forall (b : bool) s1 m, never_closing m = true -> In tok (toks s1) ->
+            let h2 := set_mcu (put_sess h (mp_owner p) s1) (h_mcutok h) (h_mcupending h) (h_mcuopen h ++ [tok]) in
+            let h3 := fst (if b then send_session h2 (mp_owner p) m else (h2, [])) in
+            In tok (h_mcuopen h3) /\ exists s', get_sess h3 (mp_owner p) = Some s' /\ In tok (toks s')).
+  { intros b s1 m Hm Ht h2 h3.
+    assert (K : h_mcuopen h3 = h_mcuopen h2 /\ forall y, option_map mcore (get_sess h3 y) = option_map mcore (get_sess h2 y)).
+    { unfold h3. destruct b; [now apply send_session_keeps|split; reflexivity]. }
+    destruct K as [K1 K2]. split; [rewrite K1; apply in_or_app; right; now left|].
+    specialize (K2 (mp_owner p)). assert (H2 : get_sess h2 (mp_owner p) = Some s1) by (unfold h2; apply get_put_eq).
+    rewrite H2 in K2. destruct (get_sess h3 (mp_owner p)) as [s'|]; [|discriminate]. cbn in K2. apply some_inj in K2.
+    apply mcore_eq in K2 as (_ & _ & Kp & Ks & _). exists s'. split; [reflexivity|]. unfold toks in *. now rewrite Kp, Ks. }
+  destruct (N.eqb (mp_kind p) 0).
+  - destruct (aget (s_pubs s) (mp_stream p)) eqn:Hslot.
+    + match goal with |- context [if N.eqb (mp_reply p) 1 then ?A else ?B] => destruct (if N.eqb (mp_reply p) 1 then A else B) as [h1 o1] end. right. left. eauto.
+    + match goal with |- context [if N.eqb (mp_reply p) 1 then ?A else ?B] => destruct (if N.eqb (mp_reply p) 1 then A else B) as [h3 o3] eqn:H3 end. right. right.
+      exists o3. split; [reflexivity|]. rewrite (fst_eq _ _ _ H3).
+      match goal with |- context [put_sess h (mp_owner p) ?s1] => apply (Own3 (N.eqb (mp_reply p) 1) s1 (SMedia 1 (mp_owner p)) eq_refl) end.
+      unfold toks. cbn [s_pubs s_subs sess_media]. rewrite (aset_new _ _ _ Hslot), map_app. cbn. rewrite !in_app_iff. cbn. auto.
+  - destruct (sub_get s (mp_pubof p) (mp_stream p)) eqn:Hslot.
+    + match goal with |- context [if N.eqb (mp_reply p) 2 then ?A else ?B] => destruct (if N.eqb (mp_reply p) 2 then A else B) as [h1 o1] end. right. left. eauto.
+    + match goal with |- context [if N.eqb (mp_reply p) 2 then ?A else ?B] => destruct (if N.eqb (mp_reply p) 2 then A else B) as [h3 o3] eqn:H3 end. right. right.
+      exists o3. split; [reflexivity|]. rewrite (fst_eq _ _ _ H3).
+      match goal with |- context [put_sess h (mp_owner p) ?s1] => apply (Own3 (N.eqb (mp_reply p) 2) s1 (SMedia 2 (mp_pubof p)) eq_refl) end.
+      unfold toks. cbn [s_pubs s_subs sess_media]. unfold sub_get in Hslot. rewrite (pset_new _ _ _ Hslot), map_app. cbn. rewrite !in_app_iff. cbn. auto.
 Qed.
